@@ -119,6 +119,13 @@ class Model:
                 self.pdo[("L", nid, m["no"])] = PdoModel("S", f"node{nid}.tpdo[{m['no']}]", m)
             for m in n.get("rpdo", []):
                 self.pdo[("R", nid, m["no"])] = PdoModel("M", f"node{nid}.rpdo[{m['no']}]", m)
+            if cfg.get("both_directions"):
+                # the other direction of each node object can be started too (PdoMap.start has no
+                # direction check): "r" = TPDO maps of the RemoteNode, "l" = RPDO maps of the LocalNode
+                for m in n.get("tpdo", []):
+                    self.pdo[("r", nid, m["no"])] = PdoModel("M", f"remote node{nid}.tpdo[{m['no']}]", m)
+                for m in n.get("rpdo", []):
+                    self.pdo[("l", nid, m["no"])] = PdoModel("S", f"local node{nid}.rpdo[{m['no']}]", m)
 
     # ---- what must be on the bus now ------------------------------------
     def expected(self):
@@ -240,7 +247,8 @@ class Model:
 
     def _pdo_stop_all(self, op, v):
         for (side, nid, no), m in self.pdo.items():
-            if side == op["side"] and nid == op["node"]:
+            if nid == op["node"] and (side == op["side"] or
+                                      (op.get("which") == "pdo" and side.upper() == op["side"])):
                 m.running = None
 
     def _pdo_period(self, op, v):
@@ -405,7 +413,7 @@ class Model:
         side = "R" if net == "M" else "L"
         live = False
         for (s, nid, no), m in self.pdo.items():
-            if s == side:
+            if s.upper() == side:
                 live |= m.running is not None
                 m.running = None
         if live:
